@@ -214,6 +214,15 @@ def build(rng, name, opts=None):
             "",
         ]
         feats.append("dict-arg")
+    if chance(0.35, "dict-with-class-field"):
+        # a dict whose values are instances of a class of another module: with TypedDicts on, the generated class body names that class
+        L += [
+            "def frame(opts):",
+            "    return opts['shape'].area() + opts['pad']",
+            "",
+            "",
+        ]
+        feats.append("dict-with-class-field")
     if chance(0.4, "posonly-star"):
         L += [
             "def clamp(v, /, *, lo=0):",
@@ -322,6 +331,8 @@ def build(rng, name, opts=None):
         L += ["    out.append([s.r for s in gen_shapes(3)])"]
     if "def settings(" in src:
         L += ["    out.append(settings({'a': 1, 'b': 2}))", "    out.append(settings({'a': 1}))"]
+    if "def frame(" in src:
+        L += ["    out.append(frame({'shape': c, 'pad': 2}))"]
     if "def clamp(" in src:
         L += ["    out.append(clamp(3, lo=5))", "    out.append(join('a', 'b', sep='-'))"]
     if "def tag_of(" in src:
